@@ -167,12 +167,27 @@ func goroutineStatuses() map[int64]string {
 func (c *controller) quiesce() bool {
 	deadline := time.Now().Add(5 * time.Second)
 	before := make([]int, len(c.actors))
+	confirmed := 0
 	for spin := 0; ; spin++ {
 		c.mu.Lock()
+		running := 0
 		for i, a := range c.actors {
 			before[i] = a.state
+			if a.state == stRunning {
+				running++
+			}
 		}
 		c.mu.Unlock()
+		if running == 0 {
+			// everybody is parked at a hook point or has finished: nothing can move
+			return true
+		}
+		if spin < 3 {
+			// give the released actor a chance to reach its next hook point before the
+			// (comparatively expensive) goroutine dump
+			runtime.Gosched()
+			continue
+		}
 		snap := goroutineStatuses()
 		c.mu.Lock()
 		quiet := true
@@ -201,8 +216,16 @@ func (c *controller) quiesce() bool {
 		}
 		c.mu.Unlock()
 		if quiet {
-			return true
+			// confirm: two consecutive quiet snapshots (a goroutine that has just been
+			// readied may still be listed with its old wait reason for an instant)
+			confirmed++
+			if confirmed >= 2 {
+				return true
+			}
+			runtime.Gosched()
+			continue
 		}
+		confirmed = 0
 		if time.Now().After(deadline) {
 			return false
 		}
